@@ -325,20 +325,25 @@ CHECKS["C08"] = {
     "level": "fault_enumeration",
     "technique": ("stateful property-based testing (rapid) of the production leader Partition + remote replicator against the production follower ReplicaHandler + Partition over real FanOutQueues, "
                   "with a harness-owned in-memory stream/unary transport for generated fault injection; invariant oracle over self-describing messages + bounded-progress check"),
-    "rule": ("rapid state machine: leader appends (8 B..5 KB self-describing messages), single replication steps (partition.replica through the verif seam), and faults: next stream send fails, next stream "
+    "rule": ("rapid state machine with 1..3 remote followers (generated; each operation draws its follower; the single replication loop serves one follower at a time and, while it waits for data or for an offline follower, none): "
+             "leader appends (8 B..5 KB self-describing messages), single replication steps (partition.replica through the no-wait verif seam), and faults: next stream send fails, next stream "
              "receive fails after the follower appended (lost ack), follower restart (log kept), follower loses its log, follower offline/online notification (suspended replicator), leader sync+gc, "
-             "leader restarts from an earlier image of its log (lost tail). After every step: follower log has no hole, every follower position holds a message the leader stored at that very position, "
-             "positions held by both sides are byte-identical, the leader's acknowledged position for the follower only moves to positions the follower has appended. After the history: faults stop and within "
-             "backlog+8 steps the follower holds every position the leader still holds for it. non-trivial = a fault was injected while >= 1 message was un-replicated and replication continued afterwards; distinct = hash of the operation log"),
+             "leader restarts from an earlier image of its log or with an empty log (lost tail / whole log) while the followers hold different amounts, resynchronised in generated order; follower cannot append while the stream stays open: "
+             "wal partition closed (shutdown, ends with a restart) or the next 1..3 appends fail. After every step, per follower: its log has no hole, every position holds a message the leader stored at that very position, "
+             "positions held by both sides are byte-identical, the leader's acknowledged position for a follower never moves over a position the current leader log stored and that follower never appended. After the history: faults stop, "
+             "a probe message is written and every follower must hold every position up to the leader's appended position. non-trivial = a fault was injected while >= 1 message was un-replicated and replication continued afterwards; "
+             "distinct = hash of the operation log"),
     "level_text": ("Generated fault sequences (every fault class of the quantifier, freely interleaved with appends and single replication steps) against the real code on both sides; the fault points are the stream operations and "
                    "restarts the harness owns. Exploration of the sequence space is sampled; the set of fault kinds is enumerated."),
-    "level_note": ("The follower's local replicator (applying its log to a tsdb family) is not run; engine objects behind the partitions are light fakes. Steps that the production loop would block on (no data, follower offline) "
-                   "run on a goroutine and are treated as parked after 50 ms; the oracle is only evaluated when no step is in flight. Known finding C08/leader-lost-tail-appends-before-resync: appends between a leader tail loss and the first "
-                   "completed resynchronising step are not generated while the finding is listed."),
-    "assumptions": ["a follower restart / offline breaks the stream (as a real connection would)", "one follower", "messages >= 8 bytes"],
+    "level_note": ("The follower's local replicator (applying its log to a tsdb family) is not run; engine objects behind the partitions are light fakes. No timing in the harness: replica.VerifReplicaStepNoWait runs IsReady + Connect and calls partition.replica only if something is pending (otherwise reports that the loop would wait for data); "
+                   "a replicator suspended for an offline follower is detected through its isSuspend flag. Known findings: C08/leader-lost-tail-appends-before-resync (appends are not generated while a follower whose channel has not yet resynchronised is ahead of the leader's append index), "
+                   "C08/append-index-reset-drops-backlog-of-other-followers (a step whose handshake would reset the append index is skipped while another follower lacks held positions or has a ready channel; such a case may end not judged). "
+                   "A follower that dies from a write to a closed log (ResetReplicaIndex on a closed partition writes into unmapped pages: observation, outside C08) stays down until restarted."),
+    "assumptions": ["a follower restart / offline breaks the stream (as a real connection would)", "1..3 followers; steps of different followers never run concurrently (single loop)", "messages >= 8 bytes", "a whole-log loss invalidates earlier leader images"],
     "tests": [
-        {"name": "TestReplicationHistory", "quick": 80, "thorough": {"checks": 500, "shards": 16}},
+        {"name": "TestReplicationHistory", "quick": 600, "thorough": {"checks": 4000, "shards": 16}},
         {"name": "TestKnown_LeaderLostTailDiverges", "quick": {}, "thorough": {}},
+        {"name": "TestRegression_.*", "quick": {}, "thorough": {}},
     ],
 }
 
